@@ -231,7 +231,9 @@ def work(task):
         return st
 
     st = build()
-    if st.exc or tm.check(st, "C01", hist[-1] if hist else None):
+    # states produced by the open finding F28 (repeated setters on bound objects) are
+    # reported by C01/C02 and not explored here; every other state is, even when wrong
+    if st.exc or any(o[0] in ("row_repeated", "cell_repeated") for o in hist):
         return (sidx, hist, 0, 0, [], 0)  # diverged under C01: reported there, not explored here
     st = build()
     W, H = st.model.width, st.model.height
@@ -415,6 +417,15 @@ def states_for(tm, tier):
         st = tm.new(tm.seed_list[i])
         for op in tm.enabled(st, alph):
             out.append((i, (op,)))
+    # (cache-populating read, op): wrappers cached before the mutation
+    for i in tm.select_seeds("rep6" if tier == "quick" else "rep"):
+        st = tm.new(tm.seed_list[i])
+        ops = tm.enabled(st, alph)
+        reads = [op for op in ops if op[0].startswith("read_")]
+        for r in reads:
+            for op in ops:
+                if not op[0].startswith("read_"):
+                    out.append((i, (r, op)))
     if tier != "quick":
         out.extend((i, ()) for i in tm.select_seeds("files"))
     return out
